@@ -65,6 +65,12 @@ func VerifH_C19_GetDag() {
 	if vChoose("version2", 2) == 1 {
 		version = "2"
 	}
+	if vChoose("existingOutput", 2) == 1 {
+		// the output path already holds a finalized archive with the same root and a block that
+		// is not part of the DAG (what an earlier, wider get-dag would have left)
+		vFSWriteFile(outPath, vBuildCarRoots([]cid.Cid{root}, []vBlk{dag[0], extra}))
+		vCover("replaced-existing-output", true)
+	}
 	var sink bytes.Buffer
 	err = GetCarDag(vCtxArgs(&sink, []string{"version", "selector"}, []string{"strict"}, "--version", version, inPath, outPath))
 	vAssert("get-dag-ok", err == nil)
